@@ -21,7 +21,7 @@ if '--stored' in sys.argv:
     if m: k = m.group(1)
 env = dict(os.environ, GOFLAGS='-mod=mod', GOPROXY='off', GOSUMDB='off', GOTOOLCHAIN='local')
 def run(cmd, cwd=None, timeout=900):
-    r = subprocess.run(cmd, shell=True, cwd=cwd, env=env, capture_output=True, text=True, timeout=timeout)
+    r = subprocess.run(cmd, shell=True, cwd=cwd, env=env, capture_output=True, text=True, errors="replace", timeout=timeout)
     return r.returncode, (r.stdout + r.stderr)
 meta = json.load(open(src + '/meta.json'))
 wt = f'/tmp/seedwt.{prop}.{wtid}'
